@@ -49,6 +49,12 @@ CHECKS = {
    text="Generated messages and byte strings against an independent reference encoder/decoder; versions, status codes and preamble bytes enumerated completely. Exploration: it samples the message space, it does not prove the codec.",
    note="Trusted: the hand-written reference codec (refmodel::wire) as layout authority, in-memory AsyncRead/AsyncWrite standing in for QUIC streams.",
    design="§4 C07"),
+ "C09": dict(
+   engine="simnet+proptest",
+   technique="property-based testing on a simulated network: generated histories of dials, disconnects, graceful restarts, crashes and (one-directional) partitions; invariant over sampled views (bounded one-sided period), mutual views and RPC reachability after a fault-free tail, and the disconnect contract",
+   text="Views are sampled every 100 ms of virtual time, so 'eventually' becomes the bounded deadlines the statement names. Two transport-level causes of over-long one-sided periods (idle-timer restart on send; 3xPTO floor with inflated RTT) are known findings, attributed from the stale connection's own counters; anything else is a violation. Exploration.",
+   note="Trusted: fabric + paused clock. Idle timeouts below 3.5 s are not generated (QUIC floors the idle period at 3 PTO). Slack 500 ms.",
+   design="§4 C09"),
  "C10": dict(
    engine="simnet+proptest",
    technique="property-based testing: model-based operation histories (arrivals, explicit dials, disconnects, affinity-table mutations, background dials) against an admission reference model written from the documentation; listing compared with the model after every settled step",
